@@ -7,5 +7,7 @@ CONSTANTS
   Dev = {}
   Ops <- MCOpsFull
   InitConds <- MCInitAll
+  InitNold <- MCNold0
+  InitRanks <- MCRankId
 CHECK_DEADLOCK FALSE
 POSTCONDITION TraceAccepted
